@@ -578,7 +578,11 @@ func (r *Ref) in(v *Node, invalid bool, lit string) int {
 		et, depth := derefT(v.T.Elem)
 		if et.K == KIface {
 			// scan with two policies for odd elements: strict (E) and lenient (skip / deref)
-			scan := func(lenient bool) int {
+			// policy 0: odd element (nil / multi-level pointer) is an error when reached;
+			// policy 1: literal coerced by the element's kind first, then odd elements skipped / dereferenced;
+			// policy 2: nil elements skipped before the literal is looked at, pointers fully dereferenced.
+			scan := func(policy int) int {
+				lenient := policy > 0
 				for _, it := range v.Items {
 					if it.Nil {
 						if lenient {
@@ -588,6 +592,19 @@ func (r *Ref) in(v *Node, invalid bool, lit string) int {
 					}
 					d := it.Items[0]
 					dt, dd := derefT(d.T)
+					if policy == 2 && dd >= 1 {
+						x := d
+						for x != nil && x.T.K == KPtr {
+							if x.Nil {
+								x = nil
+								break
+							}
+							x = x.Items[0]
+						}
+						if x == nil {
+							continue
+						}
+					}
 					if !primitive(dt.K) {
 						// coercion of literal for non-primitive kinds is raw string => ok; eqFn nil => E
 						return E
@@ -630,7 +647,7 @@ func (r *Ref) in(v *Node, invalid bool, lit string) int {
 				}
 				return Fa
 			}
-			return scan(false) | scan(true)
+			return scan(0) | scan(1) | scan(2)
 		}
 		if !primitive(et.K) {
 			return E
